@@ -270,3 +270,92 @@ Proof.
   - eapply decode_fuel_adv; [exact Hc8|exact Hdc].
   - eapply decode_fuel_adv; [exact Hc8|exact Hdf].
 Qed.
+
+(* ------------------------------------------------------------------ normal form: a second conversion *)
+
+(* converting what is read back from a written (converted) table reproduces the write-side programs.
+   xconv2 = the second expression conversion; on the place of a written expression it has to give back the
+   written expression (normal form of expressions). *)
+
+Lemma is_i32_in_signed z : is_i32 z = true -> in_signed 32 z = true.
+Proof. unfold in_signed, is_i32. change (2 ^ (32 - 1)) with 2147483648. lia. Qed.
+
+Lemma conv_step_rd caf daf xconv2 plc o d c :
+  daf <> 0%Z -> (forall b, xconv2 (plc b) = Ok b) ->
+  sem caf daf d = MInsn c -> cfi_wf c = true ->
+  conv_step caf daf xconv2 o (rd_of_dinsn plc d) = Ok (o, Some c).
+Proof.
+  intros Hd Hx Hs Hw.
+  destruct d; cbn [sem] in Hs; try discriminate; inversion Hs; subst c; clear Hs;
+    cbn [rd_of_dinsn conv_step cfi_wf] in *; rewrite ?Hx; cbn [bind]; try reflexivity.
+  - (* offset *)
+    apply andb_true_iff in Hw. destruct Hw as [_ Hw]. apply is_i32_in_signed in Hw.
+    unfold convert_unsigned_factored_offset, convert_factored_offset.
+    assert (H64 : in_signed 64 (Z.of_N fo) = true).
+    { unfold in_signed in *. change (2 ^ (32 - 1)) with 2147483648 in Hw. change (2 ^ (64 - 1)) with 9223372036854775808. nia. }
+    rewrite H64. rewrite (in_signed_32_64 _ Hw), Hw. reflexivity.
+  - (* def_cfa *)
+    apply andb_true_iff in Hw. destruct Hw as [_ Hw]. apply is_i32_in_signed in Hw.
+    unfold convert_offset. rewrite Hw. reflexivity.
+  - (* def_cfa_offset *)
+    apply is_i32_in_signed in Hw. unfold convert_offset. rewrite Hw. reflexivity.
+  - (* offset_extended_sf *)
+    apply andb_true_iff in Hw. destruct Hw as [_ Hw]. apply is_i32_in_signed in Hw.
+    unfold convert_factored_offset. rewrite (in_signed_32_64 _ Hw), Hw. reflexivity.
+  - apply andb_true_iff in Hw. destruct Hw as [_ Hw]. apply is_i32_in_signed in Hw.
+    unfold convert_factored_offset. rewrite (in_signed_32_64 _ Hw), Hw. reflexivity.
+  - apply is_i32_in_signed in Hw. unfold convert_factored_offset. rewrite (in_signed_32_64 _ Hw), Hw. reflexivity.
+  - (* val_offset *)
+    apply andb_true_iff in Hw. destruct Hw as [_ Hw]. apply is_i32_in_signed in Hw.
+    unfold convert_unsigned_factored_offset, convert_factored_offset.
+    assert (H64 : in_signed 64 (Z.of_N fo) = true).
+    { unfold in_signed in *. change (2 ^ (32 - 1)) with 2147483648 in Hw. change (2 ^ (64 - 1)) with 9223372036854775808. nia. }
+    rewrite H64. rewrite (in_signed_32_64 _ Hw), Hw. reflexivity.
+  - apply andb_true_iff in Hw. destruct Hw as [_ Hw]. apply is_i32_in_signed in Hw.
+    unfold convert_factored_offset. rewrite (in_signed_32_64 _ Hw), Hw. reflexivity.
+  - (* args_size *)
+    unfold convert_args_size. unfold is_u32 in Hw. change (2 ^ 32) with 4294967296. rewrite Hw. reflexivity.
+Qed.
+
+Lemma cie_normal_form_lemma caf daf xconv2 plc : daf <> 0%Z -> (forall b, xconv2 (plc b) = Ok b) ->
+  forall ds cl o, map (sem caf daf) ds = map MInsn cl -> forallb cfi_wf cl = true ->
+  conv_cie_from caf daf xconv2 o (map It (map (rd_of_dinsn plc) ds)) = Ok cl.
+Proof.
+  intros Hd Hx. induction ds as [|d ds IH]; intros cl o Hm Hw.
+  - destruct cl; [reflexivity|discriminate].
+  - destruct cl as [|c cl]; [discriminate|]. cbn [map] in Hm. inversion Hm as [[Hc Hrest]].
+    cbn [forallb] in Hw. apply andb_true_iff in Hw. destruct Hw as [Hwc Hwl].
+    cbn [map conv_cie_from]. rewrite (conv_step_rd caf daf xconv2 plc o d c Hd Hx Hc Hwc). cbn [bind].
+    rewrite (IH cl o Hrest Hwl). reflexivity.
+Qed.
+
+(* total location advance of a decoded program, in bytes *)
+Fixpoint adv_sum (caf : N) (ds : list dinsn) : N :=
+  match ds with
+  | [] => 0
+  | DAdvance x :: r => x * caf + adv_sum caf r
+  | _ :: r => adv_sum caf r
+  end.
+
+Definition dinsn_wf (caf : N) (daf : Z) (d : dinsn) : bool :=
+  match sem caf daf d with MInsn c => cfi_wf c | _ => true end.
+
+Lemma fde_normal_form_lemma caf daf xconv2 plc : daf <> 0%Z -> caf < 2 ^ 32 -> (forall b, xconv2 (plc b) = Ok b) ->
+  forall ds o, forallb (dinsn_wf caf daf) ds = true -> o + adv_sum caf ds < 2 ^ 32 ->
+  conv_fde_from caf daf xconv2 o (map It (map (rd_of_dinsn plc) ds)) = Ok (locate o (map (sem caf daf) ds)).
+Proof.
+  intros Hd Hc Hx. induction ds as [|d ds IH]; intros o Hw Hs; [reflexivity|].
+  cbn [forallb] in Hw. apply andb_true_iff in Hw. destruct Hw as [Hwd Hwl].
+  cbn [map conv_fde_from]. unfold dinsn_wf in Hwd.
+  destruct (sem caf daf d) as [c|b|] eqn:Es.
+  - rewrite (conv_step_rd caf daf xconv2 plc o d c Hd Hx Es Hwd). cbn [bind locate].
+    assert (adv_sum caf (d :: ds) = adv_sum caf ds) by (destruct d; cbn [sem] in Es; try discriminate; reflexivity).
+    rewrite IH; [reflexivity|exact Hwl|lia].
+  - destruct d; cbn [sem] in Es; try discriminate. inversion Es; subst b.
+    cbn [rd_of_dinsn conv_step adv_sum] in *. unfold convert_advance.
+    replace (caf <? 2 ^ 32) with true by lia.
+    replace (delta * caf <? 2 ^ 32) with true by lia. replace (o + delta * caf <? 2 ^ 32) with true by lia.
+    cbn [bind locate]. rewrite IH; [reflexivity|exact Hwl|lia].
+  - destruct d; cbn [sem] in Es; try discriminate. cbn [rd_of_dinsn conv_step bind locate adv_sum] in *.
+    rewrite IH; [reflexivity|exact Hwl|exact Hs].
+Qed.
